@@ -182,6 +182,64 @@ def run_maxflow_bulk(case):
     return {"kept": kept, "cov": cov}
 
 
+def _ns_steps(events, hit_limit):
+    """hook events of one network_simplex call -> trace for NsTrace.tla (1-based arcs and nodes, integers only)"""
+    init = next((e for e in events if e["e"] == "ns_init"), None)
+    if init is None:
+        return None
+
+    def ints(xs):
+        out, exact = [], True
+        for x in xs:
+            r = int(round(x))
+            exact = exact and abs(x - r) < 1e-9 and abs(r) < 10 ** 8
+            out.append(max(-10 ** 8, min(10 ** 8, r)))
+        return out, exact
+    cost, ce = ints(init["cost"])
+    sup, se = ints(init["supplies"])
+
+    def snap(e, piv=None):
+        pi, pe = ints(e["pi"])
+        fl, fe = ints(e["flow"])
+        r = {"flow": fl, "tree": [a + 1 for a in e["tree"]], "pi": pi, "exact": bool(pe and fe and ce and se),
+             "entering": 0, "leaving": 0, "from_upper": False, "delta": 0}
+        if piv is not None:
+            d, _ = ints([piv["delta"]])
+            r.update(entering=piv["entering"] + 1, leaving=piv["leaving"] + 1, from_upper=bool(piv["from_upper"]), delta=d[0])
+        return r
+    steps = [snap(init)]
+    piv = None
+    for e in events:
+        if e["e"] == "ns_pivot":
+            piv = e
+        elif e["e"] == "ns_state":
+            if piv is None:
+                return None
+            steps.append(snap(e, piv))
+            piv = None
+    return {"n": init["n"], "src": [x + 1 for x in init["source"]], "tgt": [x + 1 for x in init["target"]], "cap": ints(init["cap"])[0],
+            "cost": cost, "supplies": sup, "steps": steps, "hit_limit": bool(hit_limit)}
+
+
+def run_ns_steps(case):
+    """network_simplex with the snapshot hooks on: the whole pivot sequence as a trace for NsTrace.tla"""
+    from solvor import _verif
+    from solvor.network_simplex import network_simplex
+    _verif.start()
+    try:
+        r = network_simplex(case["n"], [tuple(a) for a in case["arcs"]], list(case["supplies"]))
+        status = r.status.name
+    except Exception as ex:  # noqa: BLE001
+        status = "raise:" + type(ex).__name__
+    events, dropped = _verif.stop()
+    tr = None if dropped or len(events) > 400 else _ns_steps(events, status == "MAX_ITER")
+    if tr is None:
+        return {"skipped": True}
+    tr["status"] = status
+    tr["input"] = case
+    return tr
+
+
 def run_ns_bulk(case):
     """Coverage-directed generation (DESIGN §2.2): run many small tight instances through network_simplex with the pivot
     hook on and keep the executions that take rarely exercised spec actions (an arc entering from its upper bound with a
@@ -190,6 +248,7 @@ def run_ns_bulk(case):
     from solvor.network_simplex import network_simplex
     rng = random.Random(case["seed"])
     kept, cov = [], {"instances": 0, "enter_from_upper_nondegenerate": 0, "pivots>=6": 0, "sampled": 0}
+    steps = []
     for i in range(case["count"]):
         c = gen_ns_tight(rng)
         _verif.start()
@@ -209,7 +268,12 @@ def run_ns_bulk(case):
             cov["sampled"] += 1
             kept.append({"kind": "mincost", "n": c["n"], "arcs": c["arcs"], "s": 0, "t": c["n"] - 1, "demand": 0, "supplies": c["supplies"],
                          "events": [ev], "input": c, "coverage": "EnterFromUpper" if rare else ("LongPivotSequence" if longrun else "sample")})
-    return {"kept": kept, "cov": cov}
+            st = _ns_steps(events, ev.get("status") == "MAX_ITER") if len(events) <= 400 else None
+            if st is not None:
+                st["status"] = ev.get("status", "raise")
+                st["input"] = c
+                steps.append(st)
+    return {"kept": kept, "cov": cov, "steps": steps}
 
 
 # ------------------------------------------------------------------ generators
